@@ -124,8 +124,11 @@ def run_while(I, node, ordinal, st, spec):
                     I.require(st3, c, "inv-keep#%d:%s" % (ordinal, nm))
             elif kind in ("raise", "return"):
                 res.append((kind, payload, st3))
+            elif kind == "break":
+                # leaves the loop from this arbitrary iteration, skipping the else clause
+                out.append(("next", None, st3.gset("__loop_index__", i)))
             else:
-                raise Unsupported("break inside an invariant loop")
+                raise Unsupported("%s inside an invariant loop" % kind)
         return res
     if cx.feasible(sth):
         out += at_head(sth, body, lambda s: [])
@@ -162,8 +165,11 @@ def run_members(I, node, ordinal, it, st, spec):
                     I.require(st3, c, "inv-keep#%d:%s" % (ordinal, nm))
             elif kind in ("raise", "return"):
                 out.append((kind, payload, st3))
+            elif kind == "break":
+                # leaves the loop from this arbitrary iteration, skipping the else clause
+                out.append(("next", None, st3.gset("__loop_index__", i)))
             else:
-                raise Unsupported("break inside an invariant loop")
+                raise Unsupported("%s inside an invariant loop" % kind)
     ste = _havoc(I, st, spec, "end")
     ste = ste.assume(*[c for (_n, c) in spec.inv(dom, _view(ste, spec), ste)])
     out += I.block(node.orelse, ste) if node.orelse else [("next", None, ste)]
@@ -225,8 +231,11 @@ def run(I, node, ordinal, it, st, spec):
                     I.require(st3, c, "inv-keep#%d:%s" % (ordinal, nm))
             elif kind in ("raise", "return"):
                 out.append((kind, payload, st3.gset("__loop_index__", i)))
+            elif kind == "break":
+                # leaves the loop from this arbitrary iteration, skipping the else clause
+                out.append(("next", None, st3.gset("__loop_index__", i)))
             else:
-                raise Unsupported("break inside an invariant loop")
+                raise Unsupported("%s inside an invariant loop" % kind)
     # exit
     ste = _havoc(I, st, spec, "end")
     ste = ste.assume(*[c for (_n, c) in spec.inv(n, _view(ste, spec), ste)])
